@@ -33,8 +33,8 @@ from machines.build import BUILD_STUBS
 
 NAMES = {'n0': ['x', 'y', 'z'], 'n1': ['y', 'extra'], 'N2': ['x', 'k'],
          'N3': ['x', 'y'], 'n4': [], 'n5': ['x'], 'n6': ['x', 'y', 'k'],
-         'n0b': ['x', 'y', 'w'], 'n7': ['x', 'extra'], 'n9': ['x', 'y']}
-JSON_OK = ('n0', 'n1', 'N2', 'N3', 'n6', 'n0b', 'n7', 'n9')   # stubs that have a pyref
+         'n0b': ['x', 'y', 'w'], 'n7': ['x', 'extra'], 'n9': ['x', 'y'], 'n10': ['y', 'extra']}
+JSON_OK = ('n0', 'n1', 'N2', 'N3', 'n6', 'n0b', 'n7', 'n9', 'n10')   # stubs that have a pyref
 TAGS = ['T0', 'T1', 'T2', 'U0']
 BTYPES = {'Config': fdl.Config, 'Partial': fdl.Partial,
           'ArgFactory': fdl.ArgFactory}
@@ -166,7 +166,7 @@ def gen_case(world, tier, prop):
   def node(depth=0, fn=None):
     fn = fn or rng.choice(list(NAMES))
     u = uid()
-    if fn == 'n1':
+    if fn in ('n1', 'n10'):
       args = [u] + ([value(depth)] if rng.random() < 0.7 else [])
       kwargs = {}
       if len(args) == 2 and rng.random() < 0.5:
